@@ -1618,6 +1618,10 @@ func (s *BgpServer) propagateUpdateToNeighbors(rib *table.TableManager, source *
 						if !alreadySent {
 							targetPeer.updateRoutes(newPath)
 						}
+						// a version of this path held back earlier because of the limit is
+						// advertised now: drop the mark, or its withdrawal would be skipped
+						// and a freed slot would be filled with it again
+						targetPeer.unsetPathSendMaxFiltered(newPath)
 						if newPath.GetFamily() == bgp.RF_RTC_UC {
 							// we assumes that new "path" nlri was already sent before. This assumption avoids the
 							// infinite UPDATE loop between Route Reflector and its clients.
